@@ -13,6 +13,7 @@ path) — must be accepted by `wf`: complete CRLF lines, balanced lists per line
 from __future__ import annotations
 import asyncio
 import random
+import re
 
 from .common import wire, backends, imapresp, mutf7, gen
 from .common.model import batch, nats, unnats, Model
@@ -130,6 +131,12 @@ def check_output(part, outputs, raw, case, sig, conn=None):
                     p = imapresp.envelope_problem(v)
                 elif name in (b'BODYSTRUCTURE', b'BODY') and isinstance(v, list):
                     p = imapresp.body_problem(v)
+                elif name in (b'EMAILID', b'THREADID'):
+                    # RFC 8474 (OBJECTID is advertised): "EMAILID" SP "(" objectid ")", objectid = 1*255(ALPHA / DIGIT / "_" / "-"); THREADID may be NIL
+                    part.stat('objectid-checked')
+                    if not (isinstance(v, list) and len(v) == 1 and isinstance(v[0], imapresp.Tok) and re.fullmatch(rb'[A-Za-z0-9_-]{1,255}', v[0].val)) \
+                            and not (name == b'THREADID' and isinstance(v, imapresp.Tok) and v.val.upper() == b'NIL'):
+                        p = f'{v!r} is not "(" objectid ")"'
                 if p:
                     part.stat('structure-problem')
                     part.violation('monitor', f'{sig}: {name.decode()} does not follow its grammar: {p[:300]}', case, signature='structure:' + name.decode())
@@ -234,6 +241,15 @@ async def scenario(part, r, backend, outputs):
             path = b'.'.join([b'1'] * depth_)
             await cmd(b'FETCH 1:* (BODY.PEEK[' + path + b'.HEADER] BODY.PEEK[' + path + b'.TEXT] BODY.PEEK[' + path + b'.MIME])', 'fetch:deep-part')
         await cmd(b'UID FETCH 1:* (ENVELOPE BODYSTRUCTURE)', 'fetch:ENVELOPE')
+        # another connection removes a message behind this one's back: the view is stale until the next NOOP, and what is written about the message that is gone
+        # (its file is gone too, on maildir) is still a response
+        c3 = await connect()
+        for l in (b'LOGIN u p', b'SELECT INBOX', b'STORE 1 +FLAGS.SILENT (\\Deleted)', b'EXPUNGE'):
+            raw = await c3.send(b'x ' + l + b'\r\n')
+            check_output(part, outputs, raw, dict(case, line='other connection: ' + l.decode()), 'other-connection', conn=c3)
+        await c3.eof()
+        for attr in [b'RFC822.HEADER', b'BODY.PEEK[HEADER]'] + r.sample(FETCH_ATTRS, 8):
+            await cmd(b'FETCH 1:* (UID ' + attr + b')', 'fetch-stale:' + attr.split(b'[')[0].split(b'.')[0].decode())
         await cmd(b'STORE 1:* +FLAGS (' + b' '.join(r.sample(KEYWORDS, 2)) + b' \\Deleted)', 'store')
         await cmd(b'SEARCH OR SUBJECT "a" NOT FROM "b"', 'search')
         await cmd(b'UID SEARCH ALL', 'search')
